@@ -266,7 +266,8 @@ def _oracle(ctx, ex, obs, prelude=False):
             what = 'success-became-failure' if out0 == 'returned' and \
                 out1 != 'returned' else 'outcome-changed'
             sig = None
-            if out1 in ('leak', 'error') and isinstance(val1, Exception):
+            if out1 in ('leak', 'error', 'local') and \
+                    isinstance(val1, Exception):
                 # root cause: an exception raised while another one was
                 # propagating (CloseEnumeration in the finally clause of an
                 # Iter...() generator) hides the first one; bucket by the
